@@ -332,3 +332,53 @@ def enum_values(prefix, header_rel=None):
         os.replace(exe + '.tmp%d' % os.getpid(), exe)
     out = _run([exe])
     return {l.split()[0]: int(l.split()[1]) for l in out.splitlines()}
+
+
+def xmacro_table(macro, preamble_sizes=None):
+    """Expand an X-macro table of mjxmacro.h with the compiler: rows (ctype, name, nr expression text, sizeof(type), nc value).
+    nc may depend on the nuser_* sizes of the preamble; they are taken from preamble_sizes (default 0)."""
+    ps = dict(preamble_sizes or {})
+    os.makedirs(WORK, exist_ok=True)
+    src = '''#include <stdio.h>
+#include <string.h>
+#include <mujoco/mujoco.h>
+#include <mujoco/mjxmacro.h>
+#define STR2(x) #x
+#define STR(x) STR2(x)
+int main(void) {
+  static mjModel mm; mjModel* m = &mm; memset(m, 0, sizeof(mm));
+%s
+  MJMODEL_POINTERS_PREAMBLE(m)
+  (void)nq; (void)nv; (void)na; (void)nu;
+#undef MJ_M
+#define MJ_M(n) n
+#undef MJ_D
+#define MJ_D(n) n
+#define X(type, name, nr, nc) printf("%%s|%%s|%%s|%%d|%%d\\n", #type, #name, STR(nr), (int)sizeof(type), (int)(nc));
+#define XMJV X
+#define XNV X
+  %s
+  return 0;
+}
+''' % (''.join('  m->%s = %d;\n' % kv for kv in ps.items()), macro)
+    h = hashlib.sha256(src.encode()).hexdigest()[:16]
+    c = os.path.join(WORK, 'xm_%s.%d.c' % (h, os.getpid()))
+    exe = os.path.join(WORK, 'xm_%s' % preprocessed_hash_text(src))
+    if not os.path.exists(exe):
+        open(c, 'w').write(src)
+        _run([CLANG, '-Wno-everything'] + INCLUDES + [c, '-o', exe + '.tmp%d' % os.getpid()])
+        os.replace(exe + '.tmp%d' % os.getpid(), exe)
+        os.unlink(c)
+    out = _run([exe])
+    rows = []
+    for l in out.splitlines():
+        ty, name, nr, es, nc = l.split('|')
+        rows.append((ty.strip(), name.strip(), nr.replace(' ', ''), int(es), int(nc)))
+    return rows
+
+
+def preprocessed_hash_text(src):
+    """hash of a generated source after preprocessing against the current headers"""
+    out = subprocess.run([CLANG, '-E', '-P', '-x', 'c', '-'] + INCLUDES, input=src.encode(), stdout=subprocess.PIPE, stderr=subprocess.PIPE)
+    if out.returncode != 0: raise BuildError('preprocess failed: %s' % out.stderr.decode()[-2000:])
+    return hashlib.sha256(out.stdout).hexdigest()[:20]
